@@ -1,4 +1,5 @@
-"""C15: the parser's loop-depth bookkeeping (break / continue are accepted only inside a loop OF THE SAME FUNCTION, and the counter can never
+"""C15: the parser's limits (an argument, item or parameter list that reaches its maximum is a diagnostic, so the counts the compiler narrows to
+u8 / u16 always fit, and the list loops end): Parser::{consume_arguments, call_params}; and the parser's loop-depth bookkeeping (break / continue are accepted only inside a loop OF THE SAME FUNCTION, and the counter can never
 underflow): Parser::{loop_, break_, continue_, function, lambda, fun_body}. Everything those functions call is a stub that leaves the counter
 alone and LOGS the loop depth at which a block / expression body is parsed."""
 UNIT = dict(
@@ -6,7 +7,7 @@ UNIT = dict(
   properties=['C15'],
   items=[
     ('laythe_core/src/object/fun.rs', ['enum FunKind']),
-    ('laythe_vm/src/compiler/parser.rs', [("impl<'a> Parser<'a>", ['loop_', 'continue_', 'break_', 'fun_body', 'function', 'lambda'])]),
+    ('laythe_vm/src/compiler/parser.rs', [("impl<'a> Parser<'a>", ['loop_', 'continue_', 'break_', 'fun_body', 'function', 'lambda', 'consume_arguments', 'call_params', 'call'])]),
   ],
   rewrites=[
     ('R11', 'enum FunKind', dict(drop=['Debug'], add=['Structural'])),
@@ -16,6 +17,10 @@ UNIT = dict(
     ('R5', 'Parser::*', dict(pat=r"Vec<'a, ", rep='Vec<', regex=True, optional=True)),
     ('R7', 'Parser::*', dict(pat=r'^(\s*(?:///?[^\n]*\n\s*)*)fn ', rep=r'\1pub fn ', regex=True, optional=True)),
     ('R8', 'Parser::*'),
+    # the arena vectors of the two list parsers; parser-guaranteed stop tokens
+    ('R5', 'Parser::consume_arguments', dict(pat='let mut args = self.vec();', rep='let mut args = Vec::new();', count=1)),
+    ('R5', 'Parser::call_params', dict(pat='let mut params = self.vec();', rep='let mut params = Vec::new();', count=1)),
+    ('R3', 'Parser::call_params', dict(pat=r'unreachable!\("[^"]*"\)', rep='verif_unreachable()', regex=True, count=1)),
     # loop_: the callback takes `&mut Self` (Verus: unsupported closure shape); it is run through a stub that states what while_ / for_ bodies do
     ('R4', 'Parser::loop_', dict(pat='fn loop_<T>(&mut self, cb: impl FnOnce(&mut Self) -> T) -> T {', rep='fn loop_<T>(&mut self, cb: LoopBody<T>) -> T {', count=1)),
     ('R4', 'Parser::loop_', dict(pat='let result = cb(self);', rep='let result = cb.verif_run(self);', count=1)),
